@@ -2,7 +2,7 @@
 # usage: try_mutant.sh <seeded-dir-name> [PROP]   e.g. try_mutant.sh C07-3
 # Applies /verif/seeded/<name>/patch.diff to a private worktree of /repo HEAD and runs the property's quick
 # check against it (shadow harness crate, private target dir). Leaves /repo untouched.
-N=$1; P=${2:-${N%%-*}}
+N=$1; P=${2:-${N:0:3}}
 W=/tmp/mut/$N
 mkdir -p /tmp/mut
 if [ ! -d $W/wt ]; then git -C /repo worktree add -q --detach $W/wt HEAD; fi
@@ -12,6 +12,7 @@ cd /verif
 VERIF_REPO=$W/wt VERIF_TARGET_DIR=$W/target timeout 5400 ./check $P --tier ${TIER:-quick} --jobs ${JOBS:-4} ${EXTRA} > $W/check.log 2>&1
 rc=$?
 echo "MUTANT $N prop=$P rc=$rc $(grep -c '^VIOLATION' $W/check.log) violation line(s); $(grep -E 'failing check|INCONCLUSIVE' $W/check.log | head -3 | tr '\n' ';' | cut -c1-300)"
-# free disk: keep only the log
+# free disk: keep only the logs
+mkdir -p $W/logs; cp $W/target/log-*.txt $W/logs/ 2>/dev/null
 rm -rf $W/target
 git -C /repo worktree remove --force $W/wt 2>/dev/null
